@@ -1,3 +1,4 @@
+import CoupeModel.Model.Basic
 import CoupeModel.Model.Fm
 import CoupeModel.Proofs.Fm
 
@@ -22,6 +23,34 @@ def g4 : Graph := [[(1,3),(2,1)], [(0,3),(3,2)], [(0,1),(3,4)], [(1,2),(2,4)]]
 
 theorem valid_gEx : Valid gEx := ⟨by decide, by decide, by decide, by decide, by decide⟩
 theorem valid_g4 : Valid g4 := ⟨by decide, by decide, by decide, by decide, by decide⟩
+
+/-- The model's `load` is the shared `Coupe.load` (`imbalance.rs: compute_parts_load`). -/
+theorem load_eq_basic (ws : List Int) (ids : List Nat) (k : Nat) :
+    load ws ids k = Coupe.load ws ids k := by
+  unfold Coupe.load
+  induction ws generalizing ids with
+  | nil => simp [load]
+  | cons w ws ih =>
+    cases ids with
+    | nil => simp [load]
+    | cons i ids =>
+      simp only [load, List.zip_cons_cons, List.filter_cons, ih]
+      by_cases h : i = k <;> simp [h]
+
+/-- On a valid graph the model's `edgeCut` (the code of `topology/sprs.rs: edge_cut`, which stops
+at the first column `≥ row` with `take_while`) is the textbook edge cut: the sum over the stored
+lower-triangle entries whose end points lie in different parts. -/
+theorem edgeCut_spec (g : Graph) (p : List Nat) (V : Valid g) :
+    edgeCut g p = ((List.range g.length).map (fun i =>
+      ((rowOf g i).map (fun e =>
+        if e.1 < i ∧ partOf p i ≠ partOf p e.1 then e.2 else 0)).sum)).sum := by
+  unfold edgeCut
+  rw [zipIdx_eq, List.map_map]
+  apply sum_map_congr
+  intro i hi
+  simp only [Function.comp]
+  rw [rowCut_eq _ _ _ (V.sorted i (by simpa using hi))]
+  rfl
 
 /-- `fm_ids`: the id array keeps its length and stays two-way. -/
 theorem fm_ids (ch : Nat → Nat → Nat) (prm : Params) (capOpt : Option Int) (g : Graph)
@@ -124,7 +153,7 @@ theorem fm_cut_le (ch : Nat → Nat → Nat) (prm : Params) (capOpt : Option Int
       unfold run at h
       split at h
       · simp at h
-      · simp [hc] at h
+      · simp at h
     obtain ⟨i, o, O, -, rfl⟩ := run_inv (CT := True) (X := GInv g)
       (fun _ o O => ⟨stepHyp_valid V (O.plen.trans hg), initPass_ginv g o⟩) h hne
     rw [← O.cut trivial]; exact O.cutle
@@ -162,6 +191,8 @@ end Coupe.Fm
 
 #print axioms Coupe.Fm.valid_gEx
 #print axioms Coupe.Fm.valid_g4
+#print axioms Coupe.Fm.load_eq_basic
+#print axioms Coupe.Fm.edgeCut_spec
 #print axioms Coupe.Fm.fm_ids
 #print axioms Coupe.Fm.fm_meta
 #print axioms Coupe.Fm.fm_cap
